@@ -446,7 +446,7 @@ Fixpoint steps_ok (lenient : bool) (keys : list key) (local : key) (t : table) (
       let* chr := p_rchanged keys in
       let ch := drop_stores chr in
       let t' := apply_changes t ch in
-      let g' := gt_step local t' (N.to_nat code) g o in
+      let g' := gt_step local t t' (N.to_nat code) g o in
       if flags_ok chr && table_op_ok local t o code ch && forallb (stored_in local t') g'
       then steps_ok lenient keys local t' g' r
       else pret false
